@@ -171,6 +171,8 @@ impl Check for C12 {
                 max_bytes: 0,
                 exhaustive: true,
             },
+            // every depth 1..300 x nesting opener x context x following item
+            PhaseSpec { name: "unwind", cases: textgen::unwind_count(), max_bytes: 0, exhaustive: true },
             PhaseSpec {
                 name: "tokens",
                 cases: tier.pick(60_000, 1_200_000),
@@ -194,6 +196,7 @@ impl Check for C12 {
     fn make(&self, phase: &str, index: u64, bytes: &[u8], _ctx: &mut Ctx) -> Case {
         let text = match phase {
             "exhaustive" => exhaustive_string(index),
+            "unwind" => textgen::unwind_text(index),
             "tokens" => textgen::token_soup(&mut Dec::new(bytes)),
             "unicode" => textgen::unicode_soup(&mut Dec::new(bytes)),
             _ => textgen::mutate_corpus(&mut Dec::new(bytes), corpus::sources()),
